@@ -155,3 +155,70 @@ structure LayoutOk (final : List Nat) (n m : Nat) : Prop where
   nodup : final.Nodup
 
 end QVerif.Pipeline
+
+/-! ## Pure states (superpositions) with Gaussian-rational amplitudes
+
+The classical fragment above sees a state only through its measurement statistics.  For the estimator path with
+non-diagonal observables the whole state matters: a state is a finite list of (basis state, amplitude) pairs —
+amplitudes of equal basis states add up; no normalisation is assumed — and `expval` is ⟨ψ| P |ψ⟩. -/
+
+namespace QVerif.Pipeline
+
+/-- `re + im·i` -/
+structure GRat where
+  re : Rat
+  im : Rat
+  deriving DecidableEq, Repr, Inhabited
+
+namespace GRat
+def zero : GRat := ⟨0, 0⟩
+def add (a b : GRat) : GRat := ⟨a.re + b.re, a.im + b.im⟩
+def mul (a b : GRat) : GRat := ⟨a.re * b.re - a.im * b.im, a.re * b.im + a.im * b.re⟩
+def conj (a : GRat) : GRat := ⟨a.re, -a.im⟩
+def smul (c : Rat) (a : GRat) : GRat := ⟨c * a.re, c * a.im⟩
+/-- `i^k` -/
+def ipow (k : Nat) : GRat :=
+  match k % 4 with
+  | 0 => ⟨1, 0⟩
+  | 1 => ⟨0, 1⟩
+  | 2 => ⟨-1, 0⟩
+  | _ => ⟨0, -1⟩
+def sum (l : List GRat) : GRat := l.foldr add zero
+end GRat
+
+abbrev State := List (Bits × GRat)
+
+/-- the amplitude of a basis state -/
+def amp (ψ : State) (b : Bits) : GRat := GRat.sum ((ψ.filter (fun e => e.1 = b)).map (·.2))
+
+/-- one-qubit Pauli on a basis state: `P|b⟩ = i^k |b'⟩`, returned as `(k, b')` -/
+def act1 (p : Pauli) (b : Bool) : Nat × Bool :=
+  match p, b with
+  | .I, b => (0, b)
+  | .X, b => (0, !b)
+  | .Y, false => (1, true)
+  | .Y, true => (3, false)
+  | .Z, false => (0, false)
+  | .Z, true => (2, true)
+
+/-- exponent of `i` picked up by a Pauli string on a basis state -/
+def phase : List Pauli → Bits → Nat
+  | p :: ps, b :: bs => (act1 p b).1 + phase ps bs
+  | _, _ => 0
+
+/-- the basis state a Pauli string maps a basis state to (positions without a Pauli are left alone) -/
+def flip : List Pauli → Bits → Bits
+  | p :: ps, b :: bs => (act1 p b).2 :: flip ps bs
+  | _, bs => bs
+
+/-- ⟨ψ| P |ψ⟩ = Σ_b ψ(b) · i^{phase P b} · conj ψ(P·b) -/
+def expval (ps : List Pauli) (ψ : State) : GRat :=
+  GRat.sum (ψ.map (fun e => GRat.mul (GRat.mul (GRat.conj (amp ψ (flip ps e.1))) e.2) (GRat.ipow (phase ps e.1))))
+
+/-- ⟨ψ| O |ψ⟩ for a `SparsePauliOp` -/
+def opExpval (o : PauliOp) (ψ : State) : GRat := GRat.sum (o.map (fun t => GRat.smul t.1 (expval t.2 ψ)))
+
+/-- the state a semantics-preserving transpilation prepares on the physical qubits -/
+def statePlace (ψ : State) (final : List Nat) (m : Nat) : State := ψ.map (fun e => (place e.1 final m, e.2))
+
+end QVerif.Pipeline
